@@ -735,36 +735,56 @@ class World:
         exec(src, ns)  # pylint: disable=exec-used
         return ns[name]
 
+    @staticmethod
+    def _enabled_kw(c):
+        """``enabled`` form of a contract spec: absent/true -> True (explicit), default -> argument omitted, false, slow."""
+        e = c.get("enabled", "true")
+        if e == "true":
+            return {"enabled": True}
+        if e == "false":
+            return {"enabled": False}
+        if e == "slow":
+            return {"enabled": icontract.SLOW}
+        if e == "default":
+            return {}
+        raise HarnessError("unknown enabled form %r" % e)
+
     def _decorate(self, raw, owner, spec, params=("t",)):
         """Apply ensure / snapshot / require decorators of ``spec`` to ``raw`` (nearest first)."""
         fn = raw
         post = spec.get("post", ())
         snaps = spec.get("snaps", ()) if (post or spec.get("force_snaps")) else ()
-        has_old = bool(snaps) or bool(spec.get("old_inherited"))
+        has_old = (bool(snaps) or bool(spec.get("old_inherited"))) and not spec.get("no_old")
         pparams = tuple(params) + ("result",) + (("OLD",) if has_old else ())
         for i, c in enumerate(post):
             sid = "%s/post%d" % (owner, i)
+            if c.get("omit"):
+                continue
             dec = icontract.ensure(
                 self._fn("c_" + _san(sid), pparams, c.get("style", "sync"), sid, "post"),
                 description="[[%s]]" % sid,
-                enabled=True,
+                **self._enabled_kw(c),
                 **self._error_kw(sid, c.get("error"), False)
             )
             fn = dec(fn)
             self.contracts[sid] = dec._contract
         for i, sn in enumerate(snaps):
             sid = "%s/snap%d" % (owner, i)
+            if sn.get("omit"):
+                continue
             dec = icontract.snapshot(
-                self._fn("s_" + _san(sid), params, sn.get("style", "sync"), sid, "snap"), name=sn.get("name") or ("s_" + _san(sid)), enabled=True
+                self._fn("s_" + _san(sid), params, sn.get("style", "sync"), sid, "snap"), name=sn.get("name") or ("s_" + _san(sid)), **self._enabled_kw(sn)
             )
             fn = dec(fn)
             self.contracts[sid] = dec._snapshot
         for i, c in enumerate(spec.get("pre", ())):
             sid = "%s/pre%d" % (owner, i)
+            if c.get("omit"):
+                continue
             dec = icontract.require(
                 self._fn("c_" + _san(sid), params, c.get("style", "sync"), sid, "pre"),
                 description="[[%s]]" % sid,
-                enabled=True,
+                **self._enabled_kw(c),
                 **self._error_kw(sid, c.get("error"), False)
             )
             fn = dec(fn)
@@ -917,11 +937,13 @@ class World:
                 c.__name__ = "i_" + _san(_sid)
                 return c
 
+            if inv.get("omit"):
+                continue
             dec = icontract.invariant(
                 mk(sid),
                 description="[[%s]]" % sid,
-                enabled=True,
                 check_on=_CHECK_ON[inv.get("check_on", "CALL")],
+                **self._enabled_kw(inv),
                 **self._error_kw(sid, inv.get("error"), True)
             )
             cls = dec(cls)
